@@ -249,6 +249,7 @@ PROPS = {
                U("lib_plumbing", ["C13.V.as_named.pairs_tables", "C14.V.from_named.pairs_tables", "C14.V.from_named_eq.pairs_tables"]),
                U("c14_slow_skeleton", ["C14.V.scan_import.offsets_are_prefix_sums (the importer writes infoset k's weights where the named view reads them)"]),
                U("c14_hash_skeleton", ["C14.V.hash_import.is_its_phases"]),
+               U("c11_init_recurse", ["C11.V.init_recurse.single_action_recorded_once (the named view lists every single-action infoset exactly once)", "C11.V.init_recurse.records_infoset"]),
                U("c18_truncate_sums_to_one", ["C18.V.truncate.sums_to_one (the named view of a truncated profile still sums to one)"]),
                U("c18_truncate_block", ["C18.V.truncate.rescale"]), U("c18_truncate_whole", ["C18.V.truncate.whole"]),
                U("c14_normalise", ["C14.V.normalise.weight_over_total (importing the view back yields the profile)"]),
@@ -324,6 +325,7 @@ PROPS = {
                U("lib_plumbing", ["C14.V.from_named.pairs_tables", "C14.V.from_named_eq.pairs_tables"]),
                U("c14_hash_skeleton", ["C14.V.hash_import.is_its_phases (no shortcut around validation / normalisation / the all-singles check)"]),
                U("c14_slow_skeleton", ["C14.V.scan_import.offsets_are_prefix_sums", "C14.V.scan_import.is_its_phases"]),
+               U("c11_init_recurse", ["C11.V.init_recurse.single_action_recorded_once (the table of single-action infosets both importers check coverage against lists each such infoset once)"]),
                U("c14_hash_validate", ["C14.V.hash_import.rejects_bad_weight", "C14.V.hash_import.rejects_unknown_action", "C14.V.hash_import.stores_weight",
                                        "C14.V.hash_import.single_rejects_other_action", "C14.V.hash_import.single_rejects_bad_weight", "C14.V.hash_import.single_marks_seen",
                                        "C14.V.hash_import.dense_index"])],
